@@ -86,6 +86,10 @@ func decodeFormat4(in []byte, code2rune func(c int) rune) (Subtable, error) {
 			for idx := start; idx < end; idx++ {
 				c := glyph.ID(glyphIDArray[d+int(idx-start)])
 				if c != 0 {
+					// idDelta also applies to values from the glyphIDArray
+					c += glyph.ID(idDelta[k])
+				}
+				if c != 0 {
 					cmap[uint16(code2rune(int(idx)))] = c
 				}
 			}
